@@ -1,11 +1,897 @@
-//! C22 (not built yet)
-use crate::report::{Disagreement, Run};
-use serde_json::Value;
+//! C22 Cell-reference and sheet-name codecs are bijective (complete sweeps + bounded-exhaustive names).
+//!
+//! Four families, each with an independent reference codec written here:
+//!  * col     every column number 1..=16384 and every letter string of length <= 3 (+ invalid neighbours), both ways
+//!  * ref     single-cell references: printed by the engine (A1 from a context cell, R1C1) must equal the reference
+//!            text, and the reference text must parse to exactly the node
+//!  * range   two-corner ranges incl. full-row / full-column forms, 16 flag combinations
+//!  * name    every valid sheet name of length <= L over a tricky alphabet, quoted as the engine quotes it
+//!            (`quote_name`), read back by the parser in A1 and R1C1 mode; and at model level: rename a sheet
+//!            to it and reference it from another sheet
 
-pub fn run(run: &mut Run) {
-    run.machinery_errors.push("C22: check not built yet".into());
+use crate::fx;
+use crate::report::{Disagreement, Run};
+use ironcalc_base::expressions::parser::stringify::{to_localized_string, to_rc_format};
+use ironcalc_base::expressions::parser::{Node, Parser};
+use ironcalc_base::expressions::utils::{column_to_number, number_to_column, quote_name};
+use ironcalc_base::Model;
+use serde_json::{json, Value};
+
+const LAST_ROW: i32 = 1_048_576;
+const LAST_COL: i32 = 16_384;
+
+/// Reference column codec (bijective base 26), independent of the engine's.
+fn ref_col(mut n: i32) -> String {
+    let mut v = vec![];
+    while n > 0 {
+        let r = (n - 1) % 26;
+        v.push((b'A' + r as u8) as char);
+        n = (n - 1) / 26;
+    }
+    v.iter().rev().collect()
 }
 
-pub fn replay(_case: &Value) -> Vec<Disagreement> {
-    vec![]
+fn ref_col_number(s: &str) -> Option<i32> {
+    if s.is_empty() || s.len() > 3 {
+        return None;
+    }
+    let mut n: i64 = 0;
+    for ch in s.chars() {
+        if !ch.is_ascii_uppercase() {
+            return None;
+        }
+        n = n * 26 + (ch as i64 - 'A' as i64 + 1);
+    }
+    if (1..=LAST_COL as i64).contains(&n) {
+        Some(n as i32)
+    } else {
+        None
+    }
+}
+
+fn d(case: Value, sig: String, detail: String) -> Disagreement {
+    Disagreement { sig, case, detail }
+}
+
+// ------------------------------------------------------------------ columns
+
+fn check_col_number(n: i32) -> Vec<Disagreement> {
+    let mut out = vec![];
+    let case = json!({"kind":"col","n":n});
+    let got = number_to_column(n);
+    let valid = (1..=LAST_COL).contains(&n);
+    let want = if valid { Some(ref_col(n)) } else { None };
+    if got != want {
+        out.push(d(
+            case.clone(),
+            format!("col number->letters valid={}", valid),
+            format!("number_to_column({}) = {:?}, expected {:?}", n, got, want),
+        ));
+    }
+    if let Some(s) = &got {
+        let back = column_to_number(s);
+        if back != Ok(n) {
+            out.push(d(
+                case,
+                "col number->letters->number".into(),
+                format!("column_to_number(number_to_column({})) = {:?} via `{}`", n, back, s),
+            ));
+        }
+    }
+    out
+}
+
+fn check_col_string(s: &str) -> Vec<Disagreement> {
+    let mut out = vec![];
+    let case = json!({"kind":"colstr","s":s});
+    let got = column_to_number(s).ok();
+    let want = ref_col_number(s);
+    if got != want {
+        out.push(d(
+            case.clone(),
+            format!("col letters->number valid={}", want.is_some()),
+            format!("column_to_number(`{}`) = {:?}, expected {:?}", s, got, want),
+        ));
+    }
+    if let Some(n) = got {
+        let back = number_to_column(n);
+        if back.as_deref() != Some(s) {
+            out.push(d(
+                case,
+                "col letters->number->letters".into(),
+                format!("number_to_column(column_to_number(`{}`)) = {:?} via {}", s, back, n),
+            ));
+        }
+    }
+    out
+}
+
+fn all_col_strings() -> Vec<String> {
+    let mut v = vec![];
+    let az: Vec<char> = ('A'..='Z').collect();
+    for a in &az {
+        v.push(a.to_string());
+    }
+    for a in &az {
+        for b in &az {
+            v.push(format!("{}{}", a, b));
+        }
+    }
+    for a in &az {
+        for b in &az {
+            for c in &az {
+                v.push(format!("{}{}{}", a, b, c));
+            }
+        }
+    }
+    // invalid neighbours
+    for s in ["", "a", "aa", "xfd", "Xfd", "A1", "1", "$A", "A$", "AAAA", "XFDA", "É", "Ä", "A A", " A", "A ", "-", "@"] {
+        v.push(s.to_string());
+    }
+    v
+}
+
+// ------------------------------------------------------------------ single references
+
+#[derive(Clone, Copy, Debug)]
+struct RefCase {
+    row: i32,
+    col: i32,
+    ar: bool,
+    ac: bool,
+    crow: i32,
+    ccol: i32,
+    rc: bool,
+}
+
+fn ref_case_json(c: &RefCase) -> Value {
+    json!({"kind":"ref","row":c.row,"col":c.col,"ar":c.ar,"ac":c.ac,"ctx":[c.crow,c.ccol],"rc":c.rc})
+}
+
+fn a1_text(row: i32, col: i32, ar: bool, ac: bool) -> String {
+    format!(
+        "{}{}{}{}",
+        if ac { "$" } else { "" },
+        ref_col(col),
+        if ar { "$" } else { "" },
+        row
+    )
+}
+
+fn rc_text(row: i32, col: i32, ar: bool, ac: bool) -> String {
+    let r = if ar { format!("R{}", row) } else { format!("R[{}]", row) };
+    let c = if ac { format!("C{}", col) } else { format!("C[{}]", col) };
+    format!("{}{}", r, c)
+}
+
+fn flags(ar: bool, ac: bool) -> String {
+    format!("{}c{}r", if ac { "$" } else { "" }, if ar { "$" } else { "" })
+}
+
+/// `pa` must be in A1 mode, `pr` in R1C1 mode, both English with sheet list ["Sheet1"].
+fn check_ref(c: &RefCase, pa: &mut Parser, pr: &mut Parser) -> Option<Disagreement> {
+    let node = Node::ReferenceKind {
+        sheet_name: None,
+        sheet_index: 0,
+        absolute_row: c.ar,
+        absolute_column: c.ac,
+        row: if c.ar { c.row } else { c.row - c.crow },
+        column: if c.ac { c.col } else { c.col - c.ccol },
+    };
+    let cx = fx::ctx("Sheet1", c.crow, c.ccol);
+    let mode = if c.rc { "R1C1" } else { "A1" };
+    let (printed, want) = if c.rc {
+        let (rr, cc) = match &node {
+            Node::ReferenceKind { row, column, .. } => (*row, *column),
+            _ => (0, 0),
+        };
+        (to_rc_format(&node), rc_text(rr, cc, c.ar, c.ac))
+    } else {
+        (
+            to_localized_string(&node, &cx, fx::loc("en"), fx::lang("en")),
+            a1_text(c.row, c.col, c.ar, c.ac),
+        )
+    };
+    if printed != want {
+        return Some(d(
+            ref_case_json(c),
+            format!("ref print mode={} flags={}", mode, flags(c.ar, c.ac)),
+            format!("printed `{}`, the address is `{}`", printed, want),
+        ));
+    }
+    let parsed = if c.rc { pr.parse(&want, &cx) } else { pa.parse(&want, &cx) };
+    if parsed != node {
+        return Some(d(
+            ref_case_json(c),
+            format!("ref parse mode={} flags={} got={}", mode, flags(c.ar, c.ac), fx::kind(&parsed)),
+            format!("`{}` parsed to {}\nexpected {}", want, fx::short(&parsed), fx::short(&node)),
+        ));
+    }
+    if !c.rc {
+        // lower case spelling denotes the same address
+        let low = want.to_lowercase();
+        let parsed = pa.parse(&low, &cx);
+        if parsed != node {
+            return Some(d(
+                ref_case_json(c),
+                format!("ref parse-lowercase flags={} got={}", flags(c.ar, c.ac), fx::kind(&parsed)),
+                format!("`{}` parsed to {}\nexpected {}", low, fx::short(&parsed), fx::short(&node)),
+            ));
+        }
+    }
+    None
+}
+
+fn edge_rows() -> Vec<i32> {
+    let mut v = vec![1, 2, 3, 10, 99, 100, 101, 999, 1000, 9999, 10000, 99999, 100000, 999999, 1000000];
+    let mut p = 2;
+    while p <= LAST_ROW {
+        for x in [p - 1, p, p + 1] {
+            if (1..=LAST_ROW).contains(&x) {
+                v.push(x);
+            }
+        }
+        p *= 2;
+    }
+    v.sort();
+    v.dedup();
+    v
+}
+
+fn edge_cols() -> Vec<i32> {
+    vec![1, 2, 3, 18, 26, 27, 28, 52, 53, 701, 702, 703, 704, 728, 729, 16383, 16384]
+}
+
+fn quick_ref_cases() -> Vec<RefCase> {
+    let mut v = vec![];
+    let ctxs = [(1, 1), (1000, 100), (LAST_ROW, LAST_COL)];
+    // edge rows x edge columns
+    for &row in &edge_rows() {
+        for &col in &edge_cols() {
+            for (ar, ac) in [(false, false), (true, false), (false, true), (true, true)] {
+                for &(crow, ccol) in &ctxs {
+                    for rc in [false, true] {
+                        v.push(RefCase { row, col, ar, ac, crow, ccol, rc });
+                    }
+                }
+            }
+        }
+    }
+    // every column at the first and last row
+    for col in 1..=LAST_COL {
+        for row in [1, LAST_ROW] {
+            for (ar, ac) in [(false, false), (true, false), (false, true), (true, true)] {
+                for rc in [false, true] {
+                    v.push(RefCase { row, col, ar, ac, crow: 7, ccol: 9, rc });
+                }
+            }
+        }
+    }
+    v
+}
+
+// ------------------------------------------------------------------ ranges
+
+#[derive(Clone, Copy, Debug)]
+struct RangeCase {
+    r1: i32,
+    c1: i32,
+    r2: i32,
+    c2: i32,
+    f: u8, // bit0 ar1, bit1 ac1, bit2 ar2, bit3 ac2
+    crow: i32,
+    ccol: i32,
+    rc: bool,
+}
+
+fn range_case_json(c: &RangeCase) -> Value {
+    json!({"kind":"range","r1":c.r1,"c1":c.c1,"r2":c.r2,"c2":c.c2,"f":c.f,"ctx":[c.crow,c.ccol],"rc":c.rc})
+}
+
+fn check_range(c: &RangeCase, pa: &mut Parser, pr: &mut Parser) -> Option<Disagreement> {
+    let (ar1, ac1, ar2, ac2) = (c.f & 1 != 0, c.f & 2 != 0, c.f & 4 != 0, c.f & 8 != 0);
+    let rel = |abs: bool, v: i32, base: i32| if abs { v } else { v - base };
+    let node = Node::RangeKind {
+        sheet_name: None,
+        sheet_index: 0,
+        absolute_row1: ar1,
+        absolute_column1: ac1,
+        row1: rel(ar1, c.r1, c.crow),
+        column1: rel(ac1, c.c1, c.ccol),
+        absolute_row2: ar2,
+        absolute_column2: ac2,
+        row2: rel(ar2, c.r2, c.crow),
+        column2: rel(ac2, c.c2, c.ccol),
+    };
+    let cx = fx::ctx("Sheet1", c.crow, c.ccol);
+    let mode = if c.rc { "R1C1" } else { "A1" };
+    let full_row = ar1 && ar2 && c.r1 == 1 && c.r2 == LAST_ROW;
+    let full_col = ac1 && ac2 && c.c1 == 1 && c.c2 == LAST_COL;
+    let shape = match (full_row, full_col) {
+        (true, true) => "whole-sheet",
+        (true, false) => "column-range",
+        (false, true) => "row-range",
+        _ => "cells",
+    };
+    let fl = format!("{}:{}", flags(ar1, ac1), flags(ar2, ac2));
+    let (printed, want): (String, Option<String>) = if c.rc {
+        let (a, b, cc, dd) = match &node {
+            Node::RangeKind { row1, column1, row2, column2, .. } => (*row1, *column1, *row2, *column2),
+            _ => (0, 0, 0, 0),
+        };
+        (
+            to_rc_format(&node),
+            Some(format!("{}:{}", rc_text(a, b, ar1, ac1), rc_text(cc, dd, ar2, ac2))),
+        )
+    } else {
+        let want = match (full_row, full_col) {
+            // the statement does not say how the whole sheet is spelled; only the round trip is checked
+            (true, true) => None,
+            (true, false) => Some(format!(
+                "{}{}:{}{}",
+                if ac1 { "$" } else { "" },
+                ref_col(c.c1),
+                if ac2 { "$" } else { "" },
+                ref_col(c.c2)
+            )),
+            (false, true) => Some(format!(
+                "{}{}:{}{}",
+                if ar1 { "$" } else { "" },
+                c.r1,
+                if ar2 { "$" } else { "" },
+                c.r2
+            )),
+            _ => Some(format!("{}:{}", a1_text(c.r1, c.c1, ar1, ac1), a1_text(c.r2, c.c2, ar2, ac2))),
+        };
+        (to_localized_string(&node, &cx, fx::loc("en"), fx::lang("en")), want)
+    };
+    if let Some(w) = &want {
+        if &printed != w {
+            return Some(d(
+                range_case_json(c),
+                format!("range print mode={} shape={} flags={}", mode, shape, fl),
+                format!("printed `{}`, the address is `{}`", printed, w),
+            ));
+        }
+    }
+    let text = want.unwrap_or_else(|| printed.clone());
+    let parsed = if c.rc { pr.parse(&text, &cx) } else { pa.parse(&text, &cx) };
+    if parsed != node {
+        return Some(d(
+            range_case_json(c),
+            format!(
+                "range parse mode={} shape={} flags={} got={}",
+                mode,
+                shape,
+                if shape == "cells" { fl } else { "*".into() },
+                fx::kind(&parsed)
+            ),
+            format!("`{}` parsed to {}\nexpected {}", text, fx::short(&parsed), fx::short(&node)),
+        ));
+    }
+    None
+}
+
+fn range_cases() -> Vec<RangeCase> {
+    let rows = [1, 2, 7, LAST_ROW - 1, LAST_ROW];
+    let cols = [1, 2, 26, 27, LAST_COL - 1, LAST_COL];
+    let mut v = vec![];
+    for (i, &r1) in rows.iter().enumerate() {
+        for &r2 in &rows[i..] {
+            for (j, &c1) in cols.iter().enumerate() {
+                for &c2 in &cols[j..] {
+                    for f in 0..16u8 {
+                        for (crow, ccol) in [(1, 1), (500, 30)] {
+                            for rc in [false, true] {
+                                v.push(RangeCase { r1, c1, r2, c2, f, crow, ccol, rc });
+                            }
+                        }
+                    }
+                }
+            }
+        }
+    }
+    v
+}
+
+// ------------------------------------------------------------------ sheet names
+
+pub fn name_alphabet() -> Vec<char> {
+    vec![
+        'A', 'R', 'C', 'T', 'e', 'x', '1', '0', ' ', '\'', '!', '$', '-', '+', '(', ')', ',', ';', '{', '}', '.',
+        '_', '&', '#', '@', '"', '=', '<', '>', '%', '^', '~', '|', 'é', '😀',
+    ]
+}
+
+fn word_names() -> Vec<&'static str> {
+    vec![
+        "TRUE", "FALSE", "true", "WAHR", "R1C1", "RC", "R1", "C1", "RC1", "R1C", "A1", "a1", "XFD1048576", "XFE1",
+        "A1048577", "SUM", "1E5", "1e5", "E5", "It's", "a''b", "'a'", "''", "#REF!", "#N_A", "Sheet 1", "My.Sheet",
+        "_x", "x_1", "Sheet1!A1", "A1:B2x", "R[1]C", "1.5", "-1", "a b'c d", "ÀÉ", "日本", "1234567890123456789012345678901",
+        "ABCDEFGHIJKLMNOPQRSTUVWXYZABCDE", "Sheet2", "Table1", "TRUE1", "T", "F", "R", "C", "r", "c", "rc", "R0C0",
+    ]
+}
+
+fn name_is_valid(name: &str) -> bool {
+    // the engine's own rule, asked of the engine: a sheet can be added under that name
+    let mut m = match Model::new_empty("m", "en", "UTC", "en") {
+        Ok(m) => m,
+        Err(_) => return false,
+    };
+    m.add_sheet(name).is_ok()
+}
+
+fn name_shape(name: &str) -> String {
+    name.chars()
+        .map(|c| {
+            if c.is_ascii_digit() {
+                '9'
+            } else if c.is_alphabetic() {
+                if "RCrc".contains(c) {
+                    'R'
+                } else {
+                    'L'
+                }
+            } else {
+                c
+            }
+        })
+        .collect()
+}
+
+/// Lexer/parser level: returns (stage, detail) of the first failing stage.
+fn name_lex_fail(name: &str) -> Option<(String, String)> {
+    let q = quote_name(name);
+    let sheets = ["Sheet1", name];
+    let mut pa = fx::mk_parser(&sheets, vec![], fx::loc("en"), fx::lang("en"));
+    let mut pr = fx::mk_parser(&sheets, vec![], fx::loc("en"), fx::lang("en"));
+    fx::set_rc(&mut pr, true);
+    let cx = fx::ctx("Sheet1", 1, 1);
+    let node = Node::ReferenceKind {
+        sheet_name: Some(name.to_string()),
+        sheet_index: 1,
+        absolute_row: false,
+        absolute_column: true,
+        row: 2,
+        column: 3,
+    };
+    let quoted = q != name;
+    // 1. the quoted name followed by an address, as typed
+    let text = format!("{}!$C3", q);
+    let got = pa.parse(&text, &cx);
+    if got != node {
+        return Some((
+            format!("lex-a1 quoted={}", quoted),
+            format!("`{}` parsed to {}\nexpected a reference to sheet `{}`", text, fx::short(&got), name),
+        ));
+    }
+    // 2. inside an expression (nothing before or after is swallowed)
+    let text2 = format!("1+{}!$C3*2", q);
+    let got = pa.parse(&text2, &cx);
+    let want2 = pa.parse("1+zzzz*2", &cx);
+    let ok = match (&got, &want2) {
+        (Node::OpSumKind { right: r1, .. }, Node::OpSumKind { .. }) => match r1.as_ref() {
+            Node::OpProductKind { left, .. } => **left == node,
+            _ => false,
+        },
+        _ => false,
+    };
+    if !ok {
+        return Some((
+            format!("lex-a1-in-expression quoted={}", quoted),
+            format!("`{}` parsed to {}", text2, fx::short(&got)),
+        ));
+    }
+    // 3. printers: display and stored form read back
+    let shown = to_localized_string(&node, &cx, fx::loc("en"), fx::lang("en"));
+    if shown != format!("{}!$C3", q) {
+        return Some((
+            format!("print-a1 quoted={}", quoted),
+            format!("printed `{}`, expected `{}!$C3`", shown, q),
+        ));
+    }
+    let stored = to_rc_format(&node);
+    let got = pr.parse(&stored, &cx);
+    if got != node {
+        return Some((
+            format!("lex-rc quoted={}", quoted),
+            format!("stored form `{}` parsed to {}", stored, fx::short(&got)),
+        ));
+    }
+    // 4. a range on that sheet
+    let rnode = Node::RangeKind {
+        sheet_name: Some(name.to_string()),
+        sheet_index: 1,
+        absolute_row1: true,
+        absolute_column1: true,
+        row1: 1,
+        column1: 1,
+        absolute_row2: true,
+        absolute_column2: true,
+        row2: 2,
+        column2: 2,
+    };
+    let shown = to_localized_string(&rnode, &cx, fx::loc("en"), fx::lang("en"));
+    let got = pa.parse(&shown, &cx);
+    if got != rnode {
+        return Some((
+            format!("lex-a1-range quoted={}", quoted),
+            format!("`{}` parsed to {}", shown, fx::short(&got)),
+        ));
+    }
+    let stored = to_rc_format(&rnode);
+    let got = pr.parse(&stored, &cx);
+    if got != rnode {
+        return Some((
+            format!("lex-rc-range quoted={}", quoted),
+            format!("stored form `{}` parsed to {}", stored, fx::short(&got)),
+        ));
+    }
+    None
+}
+
+/// Model level: a sheet renamed to `name`, referenced from another sheet.
+fn name_model_fail(name: &str) -> Option<(String, String)> {
+    let mut m = Model::new_empty("m", "en", "UTC", "en").ok()?;
+    m.add_sheet("Other").ok()?;
+    let _ = m.set_user_input(1, 2, 2, "41".to_string());
+    let _ = m.set_user_input(0, 1, 1, "=Other!$B$2+1".to_string());
+    m.evaluate();
+    if m.rename_sheet_by_index(1, name).is_err() {
+        return None; // not a valid (or a duplicate) name: outside the quantifier
+    }
+    m.evaluate();
+    let q = quote_name(name);
+    let value = |m: &Model, r: i32, c: i32| format!("{:?}", m.get_cell_value_by_index(0, r, c));
+    let v = value(&m, 1, 1);
+    if v != "Ok(Number(42.0))" {
+        return Some((
+            "model-rename-value".into(),
+            format!("after renaming Other to `{}`, =Other!$B$2+1 evaluates to {} (was 42)", name, v),
+        ));
+    }
+    let shown = m.get_cell_formula(0, 1, 1).ok().flatten().unwrap_or_default();
+    let want = format!("={}!$B$2+1", q);
+    if shown != want {
+        return Some((
+            "model-rename-shown".into(),
+            format!("formula shown `{}`, expected `{}`", shown, want),
+        ));
+    }
+    // re-enter the shown text in another cell: same stored formula, same value
+    if let Err(e) = m.set_user_input(0, 3, 1, shown.clone()) {
+        return Some(("model-reenter-error".into(), format!("re-entering `{}` failed: {}", shown, e)));
+    }
+    m.evaluate();
+    let v = value(&m, 3, 1);
+    let f1 = m.get_cell_formula(0, 1, 1).ok().flatten().unwrap_or_default();
+    let f3 = m.get_cell_formula(0, 3, 1).ok().flatten().unwrap_or_default();
+    if v != "Ok(Number(42.0))" || f1 != f3 {
+        return Some((
+            "model-reenter".into(),
+            format!("re-entering `{}` gives value {} and formula `{}`", shown, v, f3),
+        ));
+    }
+    let (s1, s3) = (fx::stored_rc(&m, 0, 1, 1), fx::stored_rc(&m, 0, 3, 1));
+    if s1.is_none() || s1 != s3 {
+        return Some((
+            "model-reenter-stored".into(),
+            format!("stored formula {:?}, re-entered text is stored as {:?}", s1, s3),
+        ));
+    }
+    // save / load
+    let bytes = m.to_bytes();
+    match Model::from_bytes(&bytes, "en") {
+        Ok(mut m2) => {
+            m2.evaluate();
+            let v2 = value(&m2, 1, 1);
+            let f2 = m2.get_cell_formula(0, 1, 1).ok().flatten().unwrap_or_default();
+            if v2 != "Ok(Number(42.0))" || f2 != want {
+                return Some((
+                    "model-reload".into(),
+                    format!("after to_bytes/from_bytes value {} formula `{}`", v2, f2),
+                ));
+            }
+        }
+        Err(e) => return Some(("model-reload-error".into(), e)),
+    }
+    None
+}
+
+/// Shrinks a failing name by deleting characters while it stays valid and fails at the same stage.
+fn minimise(name: &str, stage: &str, f: &dyn Fn(&str) -> Option<(String, String)>) -> String {
+    let mut cur: Vec<char> = name.chars().collect();
+    loop {
+        let mut shrunk = false;
+        for i in 0..cur.len() {
+            if cur.len() == 1 {
+                break;
+            }
+            let mut t = cur.clone();
+            t.remove(i);
+            let s: String = t.iter().collect();
+            if s == "Sheet1" || !name_is_valid(&s) {
+                continue;
+            }
+            if let Some((st, _)) = f(&s) {
+                if st == stage {
+                    cur = t;
+                    shrunk = true;
+                    break;
+                }
+            }
+        }
+        if !shrunk {
+            break;
+        }
+    }
+    cur.iter().collect()
+}
+
+fn check_name(name: &str, model_level: bool) -> (bool, Vec<Disagreement>) {
+    let mut out = vec![];
+    if name == "Sheet1" || name.to_uppercase() == "SHEET1" || name.to_uppercase() == "OTHER" || !name_is_valid(name) {
+        return (false, out);
+    }
+    if let Some((stage, detail)) = name_lex_fail(name) {
+        let min = minimise(name, &stage, &name_lex_fail);
+        out.push(d(
+            json!({"kind":"name","name":name,"level":"lex"}),
+            format!("sheet-name {} shape={}", stage, name_shape(&min)),
+            format!("name `{}` (smallest failing part `{}`), quoted as `{}`\n{}", name, min, quote_name(name), detail),
+        ));
+    } else if model_level {
+        if let Some((stage, detail)) = name_model_fail(name) {
+            let min = minimise(name, &stage, &name_model_fail);
+            out.push(d(
+                json!({"kind":"name","name":name,"level":"model"}),
+                format!("sheet-name {} shape={}", stage, name_shape(&min)),
+                format!("name `{}` (smallest failing part `{}`)\n{}", name, min, detail),
+            ));
+        }
+    }
+    (true, out)
+}
+
+fn names_up_to(len: usize) -> Vec<String> {
+    let a = name_alphabet();
+    let mut v: Vec<String> = vec![];
+    let mut cur: Vec<String> = vec![String::new()];
+    for _ in 0..len {
+        let mut next = vec![];
+        for p in &cur {
+            for c in &a {
+                let mut s = p.clone();
+                s.push(*c);
+                next.push(s);
+            }
+        }
+        v.extend(next.iter().cloned());
+        cur = next;
+    }
+    v.extend(word_names().iter().map(|s| s.to_string()));
+    v
+}
+
+// ------------------------------------------------------------------ driver
+
+fn parsers() -> (Parser<'static>, Parser<'static>) {
+    let pa = fx::mk_parser(&["Sheet1"], vec![], fx::loc("en"), fx::lang("en"));
+    let mut pr = fx::mk_parser(&["Sheet1"], vec![], fx::loc("en"), fx::lang("en"));
+    fx::set_rc(&mut pr, true);
+    (pa, pr)
+}
+
+pub fn run(run: &mut Run) {
+    let thorough = run.tier.thorough();
+    let mut distinct: std::collections::BTreeSet<u128> = Default::default();
+    let mut evals = 0u64;
+    let mut calls = 0u64;
+
+    // columns
+    let col_numbers: Vec<i32> = (-2..=LAST_COL + 3).chain([i32::MAX, i32::MIN, 18_278, 18_279, 475_254]).collect();
+    let col_strings = all_col_strings();
+    for &n in &col_numbers {
+        run.add_all(check_col_number(n));
+    }
+    for s in &col_strings {
+        run.add_all(check_col_string(s));
+    }
+    evals += (col_numbers.len() + col_strings.len()) as u64;
+    calls += 2 * (col_numbers.len() + col_strings.len()) as u64;
+    let mut letters: std::collections::BTreeSet<String> = Default::default();
+    for n in 1..=LAST_COL {
+        if let Some(s) = number_to_column(n) {
+            letters.insert(s);
+        }
+    }
+    if letters.len() != LAST_COL as usize {
+        run.add(d(
+            json!({"kind":"col-distinct"}),
+            "col not-injective".into(),
+            format!("{} distinct letter strings for {} columns", letters.len(), LAST_COL),
+        ));
+    }
+    run.sample(json!({"kind":"col","n":703,"letters":number_to_column(703)}));
+
+    // single references, edge set
+    let rcases = quick_ref_cases();
+    let chunk = 8192;
+    let units = rcases.len().div_ceil(chunk);
+    let res = crate::env::par_units(units, |u| {
+        let (mut pa, mut pr) = parsers();
+        let mut ds = vec![];
+        for c in rcases.iter().skip(u * chunk).take(chunk) {
+            if let Some(x) = check_ref(c, &mut pa, &mut pr) {
+                ds.push(x);
+            }
+        }
+        ds
+    });
+    for r in res {
+        match r {
+            Ok(ds) => run.add_all(ds),
+            Err(e) => run.machinery_errors.push(format!("ref unit panicked: {}", e)),
+        }
+    }
+    evals += rcases.len() as u64;
+    calls += 3 * rcases.len() as u64;
+    run.sample(ref_case_json(&rcases[rcases.len() / 3]));
+
+    // all rows (thorough)
+    let mut all_rows = 0u64;
+    if thorough {
+        let cols = [1, 26, 27, LAST_COL];
+        let block = 16_384;
+        let units = (LAST_ROW as usize).div_ceil(block);
+        let res = crate::env::par_units(units, |u| {
+            let (mut pa, mut pr) = parsers();
+            let mut ds = vec![];
+            let lo = (u * block) as i32 + 1;
+            let hi = ((u + 1) * block).min(LAST_ROW as usize) as i32;
+            for row in lo..=hi {
+                for &col in &cols {
+                    for (ar, ac) in [(false, false), (true, false), (false, true), (true, true)] {
+                        for rc in [false, true] {
+                            for (crow, ccol) in [(1, 1), (524_288, 8_192), (LAST_ROW, LAST_COL)] {
+                                let c = RefCase { row, col, ar, ac, crow, ccol, rc };
+                                if let Some(x) = check_ref(&c, &mut pa, &mut pr) {
+                                    ds.push(x);
+                                }
+                            }
+                        }
+                    }
+                }
+            }
+            ds
+        });
+        for r in res {
+            match r {
+                Ok(ds) => run.add_all(ds),
+                Err(e) => run.machinery_errors.push(format!("row unit panicked: {}", e)),
+            }
+        }
+        all_rows = LAST_ROW as u64 * 4 * 4 * 2 * 3;
+        evals += all_rows;
+        calls += 3 * all_rows;
+    }
+
+    // ranges
+    let gcases = range_cases();
+    let units = gcases.len().div_ceil(chunk);
+    let res = crate::env::par_units(units, |u| {
+        let (mut pa, mut pr) = parsers();
+        let mut ds = vec![];
+        for c in gcases.iter().skip(u * chunk).take(chunk) {
+            if let Some(x) = check_range(c, &mut pa, &mut pr) {
+                ds.push(x);
+            }
+        }
+        ds
+    });
+    for r in res {
+        match r {
+            Ok(ds) => run.add_all(ds),
+            Err(e) => run.machinery_errors.push(format!("range unit panicked: {}", e)),
+        }
+    }
+    evals += gcases.len() as u64;
+    calls += 2 * gcases.len() as u64;
+    run.sample(range_case_json(&gcases[gcases.len() / 2]));
+
+    // sheet names
+    let l = if thorough { 3 } else { 2 };
+    let names = names_up_to(l);
+    let nchunk = 256;
+    let units = names.len().div_ceil(nchunk);
+    let res = crate::env::par_units(units, |u| {
+        let mut ds = vec![];
+        let mut valid = 0u64;
+        let mut quoted = 0u64;
+        for n in names.iter().skip(u * nchunk).take(nchunk) {
+            let (v, x) = check_name(n, true);
+            if v {
+                valid += 1;
+                if quote_name(n) != *n {
+                    quoted += 1;
+                }
+            }
+            ds.extend(x);
+        }
+        (ds, valid, quoted)
+    });
+    let mut valid_names = 0u64;
+    let mut quoted_names = 0u64;
+    for r in res {
+        match r {
+            Ok((ds, v, q)) => {
+                run.add_all(ds);
+                valid_names += v;
+                quoted_names += q;
+            }
+            Err(e) => run.machinery_errors.push(format!("name unit panicked: {}", e)),
+        }
+    }
+    evals += names.len() as u64;
+    calls += valid_names * 12;
+    run.sample(json!({"kind":"name","name":names[names.len() / 2]}));
+
+    for c in &rcases {
+        distinct.insert(crate::env::digest(&a1_text(c.row, c.col, c.ar, c.ac)));
+    }
+    run.evaluations = evals;
+    run.states = evals;
+    run.transitions = calls;
+    run.traces = evals;
+    run.nontrivial = distinct.len() as u64 + valid_names + LAST_COL as u64;
+    run.distinct_outcomes = distinct.len() as u64 + letters.len() as u64 + quoted_names;
+    run.rule = "distinct printed addresses of the edge set + valid sheet names (accepted by add_sheet) + columns; every case prints with the engine and parses with the engine and is compared with the harness's own codec".into();
+    run.bound = json!({
+        "columns": {"numbers": col_numbers.len(), "letter_strings": col_strings.len()},
+        "references_edge_set": {"cases": rcases.len(), "rows": edge_rows().len(), "columns": edge_cols().len(), "contexts": 3, "flags": 4, "modes": ["A1","R1C1"], "plus": "every column at rows 1 and 1048576"},
+        "references_all_rows": {"cases": all_rows, "columns": ["A","Z","AA","XFD"], "contexts": ["A1", "row 524288 column 8192", "XFD1048576"]},
+        "ranges": {"cases": gcases.len(), "rows": [1,2,7,LAST_ROW-1,LAST_ROW], "columns": [1,2,26,27,LAST_COL-1,LAST_COL], "flag_combinations": 16, "contexts": 2},
+        "sheet_names": {"alphabet": name_alphabet().iter().collect::<String>(), "max_len": l, "extra_words": word_names().len(), "enumerated": names.len(), "valid": valid_names, "quoted_by_engine": quoted_names, "levels": ["parser A1","parser R1C1","model rename + re-entry + to_bytes/from_bytes"]},
+    });
+    run.exhaustive = true;
+    run.assume("a sheet name is valid iff Model::add_sheet accepts it (the engine's own rule); names equal to an existing sheet up to case are outside the quantifier");
+    run.assume("addresses are printed with the English locale and language; the A1 spelling of the whole-sheet range is not prescribed, only its round trip");
+    run.assume("the parser is asked through Parser::parse, which does not report unconsumed trailing input; names are therefore also checked embedded in `1+<name>!$C3*2`");
+}
+
+pub fn replay(case: &Value) -> Vec<Disagreement> {
+    let (mut pa, mut pr) = parsers();
+    let b = |k: &str| case[k].as_bool().unwrap_or(false);
+    let i = |k: &str| case[k].as_i64().unwrap_or(0) as i32;
+    match case["kind"].as_str().unwrap_or("") {
+        "col" => check_col_number(i("n")),
+        "colstr" => check_col_string(case["s"].as_str().unwrap_or("")),
+        "ref" => {
+            let c = RefCase {
+                row: i("row"),
+                col: i("col"),
+                ar: b("ar"),
+                ac: b("ac"),
+                crow: case["ctx"][0].as_i64().unwrap_or(1) as i32,
+                ccol: case["ctx"][1].as_i64().unwrap_or(1) as i32,
+                rc: b("rc"),
+            };
+            check_ref(&c, &mut pa, &mut pr).into_iter().collect()
+        }
+        "range" => {
+            let c = RangeCase {
+                r1: i("r1"),
+                c1: i("c1"),
+                r2: i("r2"),
+                c2: i("c2"),
+                f: i("f") as u8,
+                crow: case["ctx"][0].as_i64().unwrap_or(1) as i32,
+                ccol: case["ctx"][1].as_i64().unwrap_or(1) as i32,
+                rc: b("rc"),
+            };
+            check_range(&c, &mut pa, &mut pr).into_iter().collect()
+        }
+        "name" => check_name(case["name"].as_str().unwrap_or(""), true).1,
+        _ => vec![],
+    }
 }
